@@ -92,3 +92,24 @@ Theorem C01_prim_ops_read : forall r, In r prim_ops -> r_class r = "read"%string
     forall s, run_r (seqb (r_flavour r) "async") p r s = m s.
 Proof. exact prim_ops_model_read. Qed.
 Print Assumptions C01_prim_ops_read.
+
+(* message envelopes in sequences on one protocol object: every envelope is read back (every protocol, buffer kind, writer
+   and reader context, trailing bytes), and several enveloped messages -- write_message_begin + value + write_message_end --
+   written back to back with ONE writer are read back by ONE reader: same envelopes, same values, exactly the bytes written
+   consumed, writer and reader contexts left as found (the unchecked codec: C11_message_eq) *)
+From PV Require Import Thrift.AppMsg Proofs.AppMsgP.
+Theorem C01_message_envelope : forall p k m c,
+  len_ok (List.length (m_name m)) = true -> in_s 32 (m_seq m) ->
+  exists ss, w_message_begin p k m c = Ok (ss, c) /\
+    forall r rcx, r_message_begin p (mkS (flat ss ++ r) rcx) = Ok (m, mkS r rcx).
+Proof. exact msg_roundtrip. Qed.
+Print Assumptions C01_message_envelope.
+
+Theorem C01_message_sequence : forall p k msgs, Forall msg_ok msgs ->
+  forall c, w_pend c = None ->
+  exists ss, write_msgs p k msgs c = Ok (ss, c) /\
+    forall fuel r rcx, (forall q, In q msgs -> (vsize (snd q) <= fuel)%nat) -> idle rcx ->
+      read_msgs p fuel (map (fun q => ttype_of (snd q)) msgs) (mkS (flat ss ++ r) rcx)
+        = Ok (map (fun q => (fst q, canon p (snd q))) msgs, mkS r rcx).
+Proof. exact message_sequence. Qed.
+Print Assumptions C01_message_sequence.
